@@ -3,11 +3,12 @@ CONSTANTS
   Cases <- AllCases
   Expand <- McExpand
   Slice = "halfopen"
+  IndexFrom = "chunk"
   MaxN = 2
   MaxB = 3
   MaxF = 2
   Wide = FALSE
-INVARIANTS TypeOK Conservation Complete BatchShape IdCarried ColsOK FilterIsSelection ChainCommutes
+INVARIANTS TypeOK Conservation Complete BatchShape IdCarried ColsOK PositionIndependent OrderEquivariant OwnIndex FilterIsSelection ChainCommutes
 PROPERTIES Terminates
 CONSTRAINT Emit
 CHECK_DEADLOCK FALSE
